@@ -5,6 +5,18 @@ HERE = os.path.dirname(os.path.abspath(__file__))
 TB = ("Lean 4.33.0 kernel (axioms: propext, Classical.choice, Quot.sound only; audited per theorem); "
       "hand-written Lean model tied to the code by an in-process differential correspondence run (go build -overlay harness) on every run; ")
 CHECKS = {
+ "C02": dict(text="Lean theorems walk_spec (every tree, any depth: the walk returns exactly the .rego files with no skipped directory between argument and file; a missing argument fails the run), filter_sound_complete (C05), per_file_compose / single_file_run (non-aggregate violations of a batch = concatenation of the single-file runs, for all Env), summary_consistent, scanned_eq; error propagation from SelectProto. Tie: real temp trees through FilterIgnoredPaths vs the Walk model; batch-vs-single lints through the real linter vs the kernel.",
+             note=TB + "WalkDir visits entries in lexical order; Env.OpsIrrelevant sampled", ref="5/C02",
+             technique="Lean 4 proof (mutual structural induction on trees, fold closed forms) + differential correspondence"),
+ "C06": dict(text="Lean theorems ignored_iff (suppressed iff a directive naming the rule is on the same row or the row above), suppress_exact and add_directive_removes_exactly (a directive removes precisely those violations, nothing else; built-in and custom branches), aggregate_same, keys_roundtrip, no_row_never_ignored. Tie: whole-report prediction of the real linter on marker workspaces, and an oracle that inserts directives (4 placements x 4 spellings) at reported violations and compares with base-minus-named (rows shifted).",
+             note=TB + "Env boundary: comment locations from OPA's parser; two-phase pipeline excluded (C09-directives)", ref="5/C06",
+             technique="Lean 4 proof over the routing model + differential correspondence with directive-insertion oracle"),
+ "C09": dict(text="Lean theorems collect_partition_perm (every partition into collect runs, every merge order: each rule gets the same bag of aggregate entries, keys incl. empty markers present iff present one-shot), two_phase_eq_one_shot (given AggPermInvariant and equal directives), two_phase_triggers_same; negation two_phase_directives_witness (known finding). Tie: real Linter API two-phase pipeline over all set partitions (<=4 files) and random merge orders vs one-shot and vs the model.",
+             note=TB + "AggPermInvariant of real aggregate rules sampled; LSP cache layer is covered under C15", ref="5/C09",
+             technique="Lean 4 proof (assoc-map normal forms, permutation of contributions) + differential correspondence"),
+ "C19": dict(text="Lean theorems noticed_rule_silent / gated_rule_reports_nothing (a rule with a notice contributes no violation, all Env), notices_only_from_running_rules, skipped_count_spec, skipped_independent_of_files, caps_plus_minus. Tie: real linter over marker workspaces with strings.count removed, every (sampled; thorough: all 113) embedded OPA capabilities version with one and three files, capability plus/minus through the real config unmarshalling.",
+             note=TB + "per-rule notice conditions and embedded capability files are Env side; checked on the implementation's own reports", ref="5/C19",
+             technique="Lean 4 proof over the routing model + differential correspondence"),
  "C01": dict(text="Lean theorem lint_order_independent: for every Env with AggPermInvariant, every config/flags/options and any number of files, every completion order of the per-file workers (= permutation of the atomic merge blocks) and every order of the input list gives the same bag of violations, set of notices, summary and per-key aggregates; SelectProto theorems (Props/C03): no evaluation error is ever dropped, no deadlock. Model (main.rego, config.rego, exclusion.rego, Lint merge) tied to the real linter by whole-report prediction on marker workspaces with the completion order FORCED through schedule gates, under GOMAXPROCS 1/2/16 and concurrent Lint calls, plus go/ast facts on the lock discipline and the final select.",
              note=TB + "Env boundary (rule packages, OPA parser/evaluator) is a parameter; AggPermInvariant of real aggregate rules sampled; Go mutex atomicity", ref="5/C01",
              technique="Lean 4 proof (permutation invariance of the merge fold) + forced-schedule differential correspondence"),
